@@ -175,3 +175,15 @@ claim('C02',
       'are stated in the evidence (e.g. bare strings contain no blank, #, quote or brace; trailing comments no quote, second # or '
       'backslash - documented limits of trailing_comment). Float tokens are concrete. Longer contents and products of several non-default '
       'layout choices are outside the bound.', 'DESIGN.md 4/C02')
+claim('C01',
+      'PARTIAL. write_ndarray_to_yanny / write_table_yanny -> file -> yanny() / read_table_yanny are executed end to end over an in-memory '
+      'file system with the CONTENTS of string cells, string-array elements and header values symbolic characters (up to 2-3 per document '
+      'quick, 4 thorough, TAB + printable ASCII minus exactly the texts the statement excludes) and integer cells given by symbolic decimal '
+      'digits for every digit count and sign of int16 / int32 (int64 thorough): for every such content the writer object and a fresh read '
+      'both return the same table names (upper-cased), column order, column types, row count, every string and integer cell and header '
+      'values equal to the text form supplied; several tables per file, zero-row tables, enum columns, the Table entry points, refusal of '
+      'an existing file and of the unsupported scalar dtypes (u1,u2,u4,u8,i1,b1,f2,c8,c16 - a finite enumeration) are covered.',
+      'NOT claimed: float cells (bit-identical text round trip incl. NaN / inf / denormals: numpy repr and CPython float() are C code - floats '
+      'appear only as concrete values). re -> pathsym.symre; record arrays / Table -> record stand-in with a real numpy dtype; the decimal '
+      'rendering and parsing of integers is the engine\'s (digits symbolic), the tokeniser in between is pydl\'s; in-memory file system.',
+      'DESIGN.md 4/C01')
